@@ -11,7 +11,8 @@ body = mod.make_body(job)
 mp = int(os.environ.get('MAXP', '200'))
 t = time.perf_counter()
 faulthandler.dump_traceback_later(int(os.environ.get('DUMP', '20')), exit=True)
-E = engine.explore(body, max_paths=mp)
+sh = os.environ.get('SHARD')
+E = engine.explore(body, max_paths=mp, shard=tuple(map(int, sh.split(','))) if sh else None)
 print('paths', E.stats['paths'], 'stats', E.stats, '%.2fs' % (time.perf_counter() - t))
 print('covers', E.covers)
 print('inconclusive', E.inconclusive[:3])
